@@ -274,3 +274,45 @@ func vfC14Shapes(c int) {
 		vfAssert("collection-nothing-extra", len(set) <= len(p1)+len(l1)+len(g1))
 	}
 }
+
+// ---- polygon fill at every zoom 1..22: rectangles of tiles around several longitudes ----
+// The rectangle spans the tile centres (x0,y0)..(x0+5,y0+4): every tile of that range must be in
+// the cover and nothing else. Concrete polygons (the tile set is a map keyed by tiles, a symbolic
+// column would need every key concretised): these cases put the integer tile arithmetic of the scan
+// fill at wide tile indices (16 bits and more, up to 2^22) inside the check.
+
+var vfHZLons = []float64{-100, 10, 179}
+
+func vfC14HighZoom_N(tier int) int { return 22 * len(vfHZLons) }
+func vfC14HighZoom_Label(c int) string {
+	return "zoom=" + strconv.Itoa(1+c/len(vfHZLons)) + " lon=" + strconv.FormatFloat(vfHZLons[c%len(vfHZLons)], 'g', -1, 64)
+}
+
+func vfC14HighZoom(c int) {
+	z := maptile.Zoom(1 + c/len(vfHZLons))
+	lon := vfHZLons[c%len(vfHZLons)]
+	n := uint32(1) << uint32(z)
+	t0 := maptile.At(orb.Point{lon, 50}, z)
+	w, h := uint32(5), uint32(4)
+	if w >= n {
+		w, h = n-1, n-1
+	}
+	if t0.X+w >= n {
+		t0.X = n - 1 - w
+	}
+	if t0.Y+h >= n {
+		t0.Y = n - 1 - h
+	}
+	c0 := maptile.Tile{X: t0.X, Y: t0.Y, Z: z}.Center()
+	c1 := maptile.Tile{X: t0.X + w, Y: t0.Y + h, Z: z}.Center()
+	ring := orb.Ring{{c0[0], c1[1]}, {c1[0], c1[1]}, {c1[0], c0[1]}, {c0[0], c0[1]}, {c0[0], c1[1]}}
+	set, err := Polygon(orb.Polygon{ring}, z)
+	vfReach("highzoom")
+	vfAssert("highzoom-no-error", err == nil)
+	for x := t0.X; x <= t0.X+w; x++ {
+		for y := t0.Y; y <= t0.Y+h; y++ {
+			vfAssert("highzoom-tile-of-the-rectangle-covered", set[maptile.Tile{X: x, Y: y, Z: z}])
+		}
+	}
+	vfAssert("highzoom-nothing-outside-the-rectangle", len(set) == int(w+1)*int(h+1))
+}
